@@ -900,14 +900,10 @@ theorem loadJson_dyn_spec (f : JsonFile) (hf : JsonWF f) (tgt : Mgr) (ext : Nat 
       ∀ σ, denN m2.tbl u σ = evalPickle f.toPickle k σ) f.roots hsome us f3
   refine ⟨f.roots.rebuild us, { m2 with ref := r5 }, ?_, by rw [hvals]; exact L5.dyn,
     hk5.predNodes L5.dyn.inv, ?_, ?_, ?_, ?_, ?_, ?_⟩
-  · unfold loadJson
-    simp only [Bool.false_eq_true, if_false]
-    refine (M.bind_eq_ok ed).trans ?_
-    refine (M.bind_eq_ok emk).trans ?_
-    have hksm : (pure f.roots.values : M (List Int)) m2 = (.ok f.roots.values, m2) := rfl
-    refine (M.bind_eq_ok hksm).trans ?_
-    refine (M.bind_eq_ok er).trans ?_
-    simp only [erl]
+  · rw [loadJson_false_eq, jsonTry_ok f false hsome tgt m1 m2 { m2 with ref := r3 } added us
+      (jsonHeader_false f tgt m1 ed) emk er]
+    unfold jsonFinish
+    simp only [erl, Bool.false_eq_true, if_false]
     have hfin : (liftE (Except.ok ()) >>= fun _ => dmpAssertConsistent >>= fun _ => (pure () : M Unit))
         { m2 with ref := r4 } = (.ok (), { m2 with ref := r4 }) := by
       refine (M.bind_eq_ok (show liftE (Except.ok ()) { m2 with ref := r4 } = (.ok (), { m2 with ref := r4 }) from rfl)).trans ?_
@@ -999,16 +995,9 @@ theorem json_roundtrip_dyn_holds : json_roundtrip_dyn_statement := by
 
 /-! ### `load_order=True` with reordering enabled: `configure(reordering=False)` comes first -/
 
-theorem bind_discard_eq {α β : Type} {x : M α} {k : M β} {m m2 m' : Mgr} {a b : α}
-    (h1 : x m = (.ok a, m')) (h2 : x m2 = (.ok b, m')) :
-    (x >>= fun _ => k) m = (x >>= fun _ => k) m2 :=
-  (M.bind_eq_ok (f := fun _ => k) h1).trans (M.bind_eq_ok (f := fun _ => k) h2).symm
-
 theorem loadJson_true_off (f : JsonFile) (tgt : Mgr) :
     loadJson f true tgt = loadJson f true { tgt with lastLen := none } := by
-  unfold loadJson
-  simp only [if_true]
-  exact bind_discard_eq (configure_false_eq tgt) (configure_false_eq { tgt with lastLen := none })
+  rw [loadJson_true_eq, loadJson_true_eq]
 
 theorem DynInv.goodOff {ext : Nat → Nat} {m : Mgr} (h : DynInv ext m) :
     GoodState { m with lastLen := none } ext :=
